@@ -22,6 +22,10 @@ func Harness_C16_initialize_over_existing_tape() {
 	if tapeState <= 3 {
 		rows = append(rows, env.AddTapeEntry("/", tar.TypeDir, 0))
 		rows = append(rows, env.AddTapeEntry("/d", tar.TypeDir, 0))
+		if vm.Bool("deletionInHistory") {
+			// something was created and removed again: the tape holds its CREATE and DELETE records
+			rows = append(rows, env.AddTapeTombstone("/d/x", tar.TypeReg))
+		}
 		rows = append(rows, env.AddTapeEntry("/d/g", tar.TypeReg, 700))
 	}
 	t := env.Tape
